@@ -20,7 +20,7 @@ def run_selftests(pid, root, ana):
     if res.get("on_reference_tree"):
         # mutant-on-twin composition: a refactoring must not hide a violation from the (normalising) analysis
         from .selftest import compose
-        c = compose.run(root, pid)
+        c = compose.run(root, pid, twins=["R", "S"])       # mutants on top of the structural refactorings
         res["composed"] = {k: v for k, v in c.items() if k != "undecided_list"}
         res["composed"]["undecided_sample"] = c["undecided_list"][:8]
         for m in c["masked_list"]:
